@@ -527,12 +527,25 @@ func c54qvalue(s string) (int, bool) {
 }
 
 // c54refAccepts: does the request accept content-coding enc (RFC 7231 section 5.3.4)?
-// judged=false: the field value is not well-formed or gives conflicting weights.
-func c54refAccepts(lines []string, enc string) (acc bool, judged bool) {
+//
+//	Accept-Encoding = #( codings [ weight ] )      codings = content-coding / "identity" / "*"
+//	weight = OWS ";" OWS "q=" qvalue               (ABNF literals are case-insensitive: "Q=" too)
+//
+// A coding listed explicitly decides by its own weight; otherwise "*" decides; otherwise a coding
+// other than identity is not acceptable. No field at all: everything is acceptable.
+// judged=false: the field value is not well-formed (anything but the one weight parameter, OWS
+// around "=", out-of-grammar qvalue, non-token coding) or gives the coding (or "*") both a zero
+// and a non-zero weight. why names the deciding element class (used in signatures).
+func c54refAccepts(lines []string, enc string) (acc bool, judged bool, why string) {
 	if lines == nil {
-		return true, true // no Accept-Encoding field: any content-coding is acceptable
+		return true, true, "no-field"
 	}
-	weights := map[string][]int{}
+	type ent struct {
+		q      int
+		upperQ bool
+		name   string
+	}
+	ents := map[string][]ent{}
 	for _, el := range strings.Split(strings.Join(lines, ","), ",") {
 		el = c54trimOWS(el)
 		if el == "" {
@@ -540,52 +553,63 @@ func c54refAccepts(lines []string, enc string) (acc bool, judged bool) {
 		}
 		parts := strings.Split(el, ";")
 		if len(parts) > 2 {
-			return false, false
+			return false, false, "malformed"
 		}
 		coding := c54trimOWS(parts[0])
 		if coding == "" {
-			return false, false
+			return false, false, "malformed"
 		}
 		for i := 0; i < len(coding); i++ {
 			if !c54isTchar(coding[i]) {
-				return false, false
+				return false, false, "malformed"
 			}
 		}
-		q := 1000
+		e := ent{q: 1000, name: coding}
 		if len(parts) == 2 {
 			p := c54trimOWS(parts[1])
 			if len(p) < 3 || (p[0] != 'q' && p[0] != 'Q') || p[1] != '=' {
-				return false, false
+				return false, false, "malformed"
 			}
+			e.upperQ = p[0] == 'Q'
 			var ok bool
-			if q, ok = c54qvalue(p[2:]); !ok {
-				return false, false
+			if e.q, ok = c54qvalue(p[2:]); !ok {
+				return false, false, "malformed"
 			}
 		}
 		k := strings.ToLower(coding)
-		weights[k] = append(weights[k], q)
+		ents[k] = append(ents[k], e)
 	}
-	decide := func(qs []int) (bool, bool) {
+	decide := func(es []ent, kind string) (bool, bool, string) {
 		pos, zero := 0, 0
-		for _, q := range qs {
-			if q > 0 {
+		feat := ""
+		for _, e := range es {
+			if e.q > 0 {
 				pos++
-			} else {
-				zero++
+				continue
+			}
+			zero++
+			if e.upperQ && !strings.Contains(feat, "+upperQ") {
+				feat += "+upperQ"
+			}
+			if e.name != strings.ToLower(e.name) && !strings.Contains(feat, "+name-case") {
+				feat += "+name-case"
 			}
 		}
 		if pos > 0 && zero > 0 {
-			return false, false
+			return false, false, "conflicting"
 		}
-		return pos > 0, true
+		if pos > 0 {
+			return true, true, kind
+		}
+		return false, true, kind + "-with-q0" + feat
 	}
-	if qs, ok := weights[enc]; ok {
-		return decide(qs)
+	if es, ok := ents[enc]; ok {
+		return decide(es, "listed")
 	}
-	if qs, ok := weights["*"]; ok {
-		return decide(qs)
+	if es, ok := ents["*"]; ok {
+		return decide(es, "star")
 	}
-	return false, true
+	return false, true, "not-listed"
 }
 
 // ------------------------------------------------------------------------------ reference: decompression
@@ -761,6 +785,9 @@ func (h *c54h) execute(reqs []*c54req, outcome func(string)) (vs []c54verdict, p
 				reason = "backend-encoded"
 			default:
 				reason = "accept-encoding"
+				if acc, judged, _ := c54refAccepts(q.ae, q.rule.enc()); judged && acc {
+					reason = "acceptable-but-left-alone(unjudged)"
+				}
 			}
 			intact := "intact"
 			want := q.backend.body
@@ -784,19 +811,16 @@ func (h *c54h) execute(reqs []*c54req, outcome func(string)) (vs []c54verdict, p
 		inClass := fmt.Sprintf("%s:%s", enc, c54lenClass(len(q.backend.body), q.rule.f))
 
 		// accept clause
-		acc, judged := c54refAccepts(q.ae, enc)
+		acc, judged, why := c54refAccepts(q.ae, enc)
 		if judged && !acc {
-			cls := "not-listed"
-			joined := strings.ToLower(strings.Join(q.ae, ","))
-			if strings.Contains(joined, enc) {
-				cls = "listed-with-q0"
-			}
 			vs = append(vs, c54verdict{
-				sig:    fmt.Sprintf("accept:%s:%s:compressed-anyway", enc, cls),
-				detail: fmt.Sprintf("Accept-Encoding %q does not accept %s but the module compressed with it", q.ae, enc),
+				sig:    fmt.Sprintf("accept:%s:%s:compressed-anyway", enc, why),
+				detail: fmt.Sprintf("Accept-Encoding %q does not accept %s (%s) but the module compressed with it", q.ae, enc, why),
 			})
 		} else if !judged {
-			outcome("accept-unjudged:" + enc)
+			outcome("accept-unjudged:" + enc + ":" + why)
+		} else {
+			outcome("accept-ok:" + enc + ":" + why)
 		}
 
 		// announce clause
@@ -1139,6 +1163,80 @@ var c54aeAlphabet = [][]string{
 	{"gzip", "gzip;q=0"},
 }
 
+// c54aeGrammar builds the Accept-Encoding alphabet of family G from the grammar: for the target
+// coding every {name case} x {weight spelling}, every {list context} x {weight spelling}, the
+// forms without the target ("*", identity, the neighbour coding), and two-line fields.
+// full = the complete cross name x weight x context.
+func c54aeGrammar(target, neighbour string, full bool) [][]string {
+	mixed := map[string]string{"gzip": "GzIp", "br": "bR"}[target]
+	names := []string{target, strings.ToUpper(target), mixed}
+	weights := []string{
+		"", ";q=0", ";Q=0", ";q=0.", ";q=0.0", ";Q=0.0", ";q=0.00", ";q=0.000", ";Q=0.000", ";q=0.001", ";Q=0.001", ";q=0.5", ";Q=0.5",
+		";q=1", ";Q=1", ";q=1.", ";q=1.0", ";q=1.000", ";Q=1.000",
+		" ;q=0", "; q=0", " ; q=0", "\t;\tq=0", " ;Q=0", "; Q=0.0", " ; Q=0", "  ;  q=0.000", " ;q=1", "; Q=1",
+		// not in the grammar (unjudged): OWS around "=", missing / garbage / out-of-range values,
+		// other parameters, several parameters
+		";q =0", ";q= 0", ";q = 0", ";q=", ";q", ";Q", ";=0", ";q=abc", ";q=-1", ";q=-0", ";q=2", ";q=1.001", ";q=0.0000", ";q=1.0000", ";q=00", ";q=.0", ";q=0,0",
+		";q=0e0", ";q=1e-9", ";q=NaN", ";q=0x0", ";qq=0", ";level=0", ";level=1;q=0", ";q=0;level=1", ";q=0;q=1", ";q=1;q=0", ";q=0;q=0", ";Q=0;q=1", ";", ";;q=0",
+	}
+	contexts := []string{
+		"%s", " %s", "%s ", "\t%s\t", ",%s", "%s,", ", ,%s", "%s , ,",
+		"identity, %s", "%s, identity", "deflate,%s", "%s ,deflate", "deflate;q=0, %s", "%s, deflate;q=0",
+		"*;q=0, %s", "%s, *;q=0", "*, %s", "%s, *", "*;Q=0,%s", "identity;q=0, %s",
+		neighbour + ", %s", "%s, " + neighbour, neighbour + ";q=0, %s", "%s, " + neighbour + ";q=0", neighbour + ";Q=0,%s",
+		"x-%s, %s", "%s2, %s", "%s, %s", "%s;q=1, %s", "%s;q=0, %s",
+	}
+	seen := map[string]bool{}
+	var out [][]string
+	add := func(lines ...string) {
+		k := strings.Join(lines, "\x00")
+		if !seen[k] {
+			seen[k] = true
+			out = append(out, lines)
+		}
+	}
+	fill := func(ctx, el string) string {
+		// contexts with two verbs: the first gets the bare target name (or its decoy prefix use)
+		if strings.Count(ctx, "%s") == 2 {
+			return fmt.Sprintf(ctx, target, el)
+		}
+		return fmt.Sprintf(ctx, el)
+	}
+	for _, w := range weights {
+		for ni, n := range names {
+			for ci, ctx := range contexts {
+				if !full && ni != 0 && ci != 0 {
+					continue
+				}
+				add(fill(ctx, n+w))
+			}
+		}
+	}
+	// forms that do not list the target
+	for _, v := range []string{
+		"", " ", ",", "*", "*;q=0", "*;Q=0", "*;q=0.000", "* ;q=0", "*;q=0.5", "*;q=1", "*;q=abc", "identity", "identity;q=0", "identity;q=0, *;q=0", "identity;q=0, *",
+		"identity;q=1, *;q=0", neighbour, neighbour + ";q=0", strings.ToUpper(neighbour), "deflate", "compress, deflate", "x-" + target, target + "2", target + "-9",
+		"\"" + target + "\"", "(" + target + ")", target + "/1", target + "=1",
+	} {
+		add(v)
+	}
+	// several field lines
+	small := []string{"", ";q=0", ";Q=0", ";q=0.5"}
+	for _, w1 := range small {
+		for _, w2 := range small {
+			add(target+w1, target+w2)
+			add(target+w1, neighbour+w2)
+			add(neighbour+w1, target+w2)
+			add("*"+w1, target+w2)
+			add(target+w1, "*"+w2)
+		}
+	}
+	add("identity", target)
+	add("", target)
+	add(target, "")
+	return out
+}
+
 var c54ceAlphabet = [][]string{
 	nil,
 	{"identity"},
@@ -1288,6 +1386,21 @@ func TestVerifC54(t *testing.T) {
 	}
 	for n := 2; n <= depth; n++ {
 		rec(0, n)
+	}
+
+	// ---- family G: the Accept-Encoding grammar (coding-name case x weight spellings x list
+	//      contexts x neighbour codings x "*" / identity forms x several field lines) for both
+	//      codings, each with the GZIP and the BROTLI rule, plain 200 backend.
+	for _, tg := range [][2]string{{"gzip", "br"}, {"br", "gzip"}} {
+		for _, ae := range c54aeGrammar(tg[0], tg[1], thorough) {
+			for _, ru := range []c54rule{gz, bro} {
+				if !thorough && ru.enc() != tg[0] && len(ae) == 1 && strings.ContainsAny(ae[0], "=") && !strings.Contains(strings.ToLower(ae[0]), ru.enc()) {
+					continue // quick: weight spellings of a coding the rule does not use and that is the only one listed
+				}
+				be := mkBackend(200, "cl", 0, nil, text100, whole)
+				runCase("G", []*c54req{{method: "GET", proto: "1.1", ae: ae, rule: ru, bodyID: "t100", backend: be}})
+			}
+		}
 	}
 
 	// ---- family A: negotiation — Accept-Encoding x rule x backend Content-Encoding x status x
